@@ -89,7 +89,7 @@ func (p *params) bare(name string) string { return g9blib.QuoteIdent(name + p.sf
 func (p *params) expand(s string, loadfile, outfile string) string {
 	rep := strings.NewReplacer(
 		"{t}", p.obj("t"), "{u}", p.obj("u"), "{lg}", p.obj("lg"), "{lg2}", p.obj("lg2"), "{np}", p.obj("np"),
-		"{ft}", p.obj("ft"), "{v}", p.obj("v"), "{nv}", p.obj("nv"), "{nt}", p.obj("nt"), "{nt2}", p.obj("nt2"),
+		"{ft}", p.obj("ft"), "{ta}", p.obj("ta"), "{v}", p.obj("v"), "{nv}", p.obj("nv"), "{nt}", p.obj("nt"), "{nt2}", p.obj("nt2"),
 		"{tmp}", p.obj("tmp"), "{o}", "`other`.`o`", "{othernt}", "`other`.`ont`",
 		"{trg}", p.obj("trg"), "{trgbare}", p.bare("trg"), "{ntrg}", p.obj("ntrg"),
 		"{pw}", p.obj("pw"), "{pr}", p.obj("pr"), "{pd}", p.obj("pd"), "{npn}", p.obj("npn"),
@@ -126,6 +126,12 @@ func (p *params) setupSQL() []string {
 	add("INSERT INTO %s VALUES (1, 'apple moon', 'x'), (2, 'dog apple', 'y'), (3, 'sun', 'z')", q("ft"))
 	add("CREATE VIEW %s AS SELECT id, a FROM %s WHERE a > -500", q("v"), q("t"))
 	add("CREATE TRIGGER %s AFTER INSERT ON %s FOR EACH ROW INSERT INTO %s (msg) VALUES (concat('ins ', NEW.id))", q("trg"), q("t"), q("lg"))
+	// a table whose AFTER triggers write nothing: the trigger executor, not the DML node, is then the root of the plan
+	add("CREATE TABLE %s (id INT PRIMARY KEY, a INT)", q("ta"))
+	add("INSERT INTO %s VALUES (1, %d), (2, %d), (3, %d)", q("ta"), p.vals[0], p.vals[1], p.vals[2])
+	add("CREATE TRIGGER %s AFTER INSERT ON %s FOR EACH ROW SET @c42ai = NEW.id", q("tai"), q("ta"))
+	add("CREATE TRIGGER %s AFTER UPDATE ON %s FOR EACH ROW SET @c42au = NEW.a + OLD.a", q("tau"), q("ta"))
+	add("CREATE TRIGGER %s AFTER DELETE ON %s FOR EACH ROW SET @c42ad = OLD.id", q("tad"), q("ta"))
 	add("CREATE PROCEDURE %s(x INT) INSERT INTO %s VALUES (x, x, 'proc')", q("pw"), q("t"))
 	add("CREATE PROCEDURE %s() SELECT count(*) FROM %s", q("pr"), q("t"))
 	add("CREATE PROCEDURE %s() BEGIN UPDATE %s SET b = b + 1; DELETE FROM %s WHERE n = 1; END", q("pd"), q("np"), q("lg2"))
